@@ -116,7 +116,7 @@ def main():
                 if ns < 1:
                     continue
                 for ens in (True, False):
-                    for kind in ('default', 'card', 'list', 'random'):
+                    for kind in ('default', 'card', 'list', 'random', 'mixed'):
                         sd = rng.randrange(10 ** 6)
                         if kind == 'default':
                             kw = {'n_features': 2, 'n_samples': ns, 'cardinality': D, 'ensure_rep': ens, 'seed': sd}
@@ -130,6 +130,13 @@ def main():
                             if rng.random() < 0.5:
                                 kw.update(random_values=True, low=100, high=1000)      # an explicit value list stays the domain also when the OTHER features draw random domains
                             cols = [{'domain': vals}] * 2
+                        elif kind == 'mixed':
+                            # the data-set-wide default domain does NOT fit into n_samples, the per-feature domains of the structure
+                            # may: representation is decided per feature
+                            vals = [7 * k + 1 for k in range(D)]
+                            big = ns + 1 + rng.randrange(4)
+                            kw = {'n_features': 3, 'n_samples': ns, 'cardinality': big, 'structure': [[1, D], [2, vals]], 'ensure_rep': ens, 'seed': sd, 'low': 4}
+                            cols = [{'domain': list(range(4, 4 + big))}, {'domain': list(range(4, 4 + D))}, {'domain': vals}]
                         else:
                             lo_, hi_ = rng.choice([(10, 10 + 3 * D), (-60, 0), (-3 * D, -1), (0, 3 * D), (-D, D)])       # bounds at and across zero
                             kw = {'n_features': 2, 'n_samples': ns, 'cardinality': D, 'ensure_rep': ens, 'seed': sd, 'random_values': True, 'low': lo_, 'high': hi_}
@@ -145,7 +152,7 @@ def main():
             if 'error' in ob:
                 V.violation('raises:' + key, ob['error'], it)
                 continue
-            recs.append({'kind': 'data', 'nf': 2, 'ns': ns, 'shape': ob['shape'], 'int32': ob['int32'], 'same_again': ob['same_again'],
+            recs.append({'kind': 'data', 'nf': it['kw']['n_features'], 'ns': ns, 'shape': ob['shape'], 'int32': ob['int32'], 'same_again': ob['same_again'],
                          'cols': [dict({'lo': 0, 'hi': 0, 'card': 0}, **c, vals=ob['cols'][j], ensure=ens) for j, c in enumerate(cols)]})
             keys.append((key, it, ob))
         res = validate(wd, recs, 'sweep')
